@@ -226,6 +226,27 @@ func main() {
 			}
 			fn.WriteTo(os.Stdout)
 		}
+	case "writes":
+		w, err := loadWorld([]string{"./src/..."})
+		must(err)
+		for _, k := range os.Args[2:] {
+			fn := w.funcs[k]
+			if fn == nil {
+				fmt.Println("not found:", k)
+				continue
+			}
+			ws := w.writeSet(fn, nil)
+			var ns []string
+			for n := range ws.Vars {
+				f := ""
+				if ws.FreshOnly[n] {
+					f = " (fresh only)"
+				}
+				ns = append(ns, n+f)
+			}
+			sort.Strings(ns)
+			fmt.Printf("%s: all=%v (%s) yields=%v\n  %s\n", k, ws.All, ws.Why, ws.Yields, strings.Join(ns, "\n  "))
+		}
 	case "list":
 		w, err := loadWorld([]string{"./src/..."})
 		must(err)
